@@ -315,6 +315,10 @@ fn straggler_inner(n: usize, ctx: &WorkerCtx) -> ExecResult {
                     nw.peer.send(&frame(&write_pass_through(&m), 4));
                     nw.w.settle(&mut nw.peer, &probe).await;
                 }
+                // a SEND to this very call's identifier that carries no message at all (control tuple only), and one whose
+                // message is not a reply (no {rex, _} tuple): neither answers the call
+                nw.peer.send(&frame(&write_pass_through(&DistMsg { control: RefVal::Tuple(vec![RefVal::int(2), RefVal::atom(""), to.clone()]), payload: None }), 4));
+                nw.w.settle(&mut nw.peer, &probe).await;
                 nw.peer.send(&reply_frame(first_reply_to.as_ref().unwrap(), 0)); // straggler for the finished call 0
                 nw.w.settle(&mut nw.peer, &probe).await;
                 nw.peer.send(&reply_frame(&to, k as i64));
@@ -400,6 +404,64 @@ fn prestart_straggler_exec(creation: &u32, ctx: &WorkerCtx) -> ExecResult {
     });
     crate::world::set_epmd_creation(None);
     out
+}
+
+/// Two remote nodes whose names stand in a prefix relation (`peer@127.0.0.1` and `peer@127.0.0.1x`): a call to one of them
+/// waits while the connection to the other goes down; the waiting call still gets its reply, and a call to the node that
+/// went down is the one that fails.
+fn prefix_neighbour_exec(which_closes: &usize, ctx: &WorkerCtx) -> ExecResult {
+    let which_closes = *which_closes;
+    run_rt(async move {
+        let mut res = ExecResult::default();
+        let mut nw = match node_world(ctx, flags_default()).await { Ok(x) => x, Err(e) => { res.violations.push(("could not establish the connection under a conforming peer".into(), json!({"error": e}))); return res; } };
+        nw.w.gates.set_active(&[]);
+        let other = "peer@127.0.0.10";
+        // the second connection (same listeners: they accept on every loopback address)
+        tokio::time::resume();
+        let n2 = nw.node.clone();
+        let mut h = tokio::spawn(async move { n2.connect(other).await });
+        let mut peer2 = match nw.w.accept_peer().await { Some(p) => p, None => { res.violations.push(("library never connected to the second peer".into(), json!({}))); return res; } };
+        if let Err(e) = nw.w.peer_handshake(&mut peer2, flags_default()).await { res.violations.push(("handshake with the second peer failed".into(), json!({"error": e}))); return res; }
+        for _ in 0..20_000 { nw.w.yield_once().await; if h.is_finished() { break; } }
+        if !h.is_finished() || !matches!((&mut h).await, Ok(Ok(()))) { res.violations.push(("connect to the second peer did not succeed".into(), json!({}))); return res; }
+        tokio::time::pause();
+        let results: Arc<Mutex<Vec<(String, CallResult)>>> = Arc::new(Mutex::new(vec![]));
+        let probe = { let r = results.clone(); move || r.lock().unwrap().len() as u64 };
+        let call = |name: &str, target: &str, k: i64| {
+            let (node, results, name, target) = (nw.node.clone(), results.clone(), name.to_string(), target.to_string());
+            tokio::spawn(async move {
+                let r = node.rpc_call_raw_with_timeout(&target, "m", "f", vec![OwnedTerm::Integer(k)], Duration::from_secs(50)).await;
+                let cr = match r { Ok(v) => CallResult::Ok(format!("{:?}", v)), Err(edp_node::Error::RpcTimeout(_)) => CallResult::Timeout, Err(edp_node::Error::RpcCancelled) => CallResult::Cancelled, Err(e) => CallResult::Other(e.to_string()) };
+                results.lock().unwrap().push((name, cr));
+            })
+        };
+        // one call waits on each connection
+        call("to_first", PEER_NAME, 1);
+        call("to_second", other, 2);
+        nw.w.settle(&mut nw.peer, &probe).await;
+        nw.w.settle(&mut peer2, &probe).await;
+        // one of the two peers goes away; the other answers
+        let (closing, staying, staying_call, closing_call, k) = if which_closes == 0 { (&mut nw.peer, &mut peer2, "to_second", "to_first", 2i64) } else { (&mut peer2, &mut nw.peer, "to_first", "to_second", 1i64) };
+        closing.close();
+        nw.w.settle(staying, &probe).await;
+        let (frames, _) = staying.dist_frames();
+        let mut answered = false;
+        for f in &frames { if let Ok(m) = read_pass_through(f) { if let Some((from, kk)) = marker_of_request(&m) { if kk == k { staying.send(&reply_frame(&from, k)); answered = true; } } } }
+        nw.w.settle(staying, &probe).await;
+        tokio::time::advance(Duration::from_secs(60)).await;
+        nw.w.settle(staying, &probe).await;
+        let got = results.lock().unwrap().clone();
+        let want = CallResult::Ok(format!("{:?}", expected_reply_term(k)));
+        let stay = got.iter().find(|x| x.0 == staying_call).map(|x| x.1.clone());
+        let gone = got.iter().find(|x| x.0 == closing_call).map(|x| x.1.clone());
+        if !answered || stay.as_ref() != Some(&want) || matches!(gone, Some(CallResult::Ok(_)) | None) {
+            res.violations.push(("a call did not return the reply addressed to it after the connection to a node with a similar name went down".into(), json!({"nodes": [PEER_NAME, other], "connection_that_closed": if which_closes == 0 { PEER_NAME } else { other }, "call_on_the_surviving_connection": format!("{:?}", stay), "call_on_the_closed_connection": format!("{:?}", gone), "request_seen_by_the_surviving_peer": answered})));
+        }
+        if nw.node.pending_rpc_count() != 0 { res.violations.push(("bookkeeping remains after every call has returned".into(), json!({"pending": nw.node.pending_rpc_count()}))); }
+        res.steps = 4;
+        res.outcome = format!("prefix neighbour {}", which_closes);
+        res
+    })
 }
 
 /// The peer stops reading while one caller's oversized request is being written (it holds the connection); a second
@@ -519,11 +581,13 @@ pub fn run(rep: &Report) -> Value {
     let st_s = crate::explore::for_all(rep, "late reply of a finished call re-sent before each later reply", &lens, |n, ctx| straggler_exec(n, ctx));
     let crs = vec![1u32, 2, 77];
     let st_ps = crate::explore::for_all(rep, "a call made before Node::start, its late reply after a call made afterwards", &crs, |n, ctx| prestart_straggler_exec(n, ctx));
+    let pn = vec![0usize, 1];
+    let st_pn = crate::explore::for_all(rep, "two remote nodes with names in a prefix relation, one connection going down", &pn, |n, ctx| prefix_neighbour_exec(n, ctx));
     let nf = vec![0usize, 1, 2, 3];
     let st_fn = crate::explore::for_all(rep, "calls failing on another connection between waiting calls", &nf, |n, ctx| failing_neighbour_exec(n, ctx));
     let sizes = vec![(24usize, false), (24, true)];
     let st_st = crate::explore::for_all(rep, "peer stops reading under an oversized request, second caller queued behind it", &sizes, |n, ctx| stalled_rpc_exec(n, ctx));
-    let states: u64 = all.iter().map(|(_, s)| s.executions).sum::<u64>() + st_s.executions + st_st.executions + st_fn.executions + st_ps.executions;
+    let states: u64 = all.iter().map(|(_, s)| s.executions).sum::<u64>() + st_s.executions + st_st.executions + st_fn.executions + st_ps.executions + st_pn.executions;
     let transitions: u64 = all.iter().map(|(_, s)| s.transitions).sum::<u64>() + st_s.transitions;
     let mut samples: Vec<Value> = vec![];
     for (_, s) in &all { samples.extend(s.samples.iter().take(2).cloned()); }
